@@ -77,8 +77,55 @@ type cellKey struct {
 	off int
 }
 
+// chanMeta is the per-path race metadata of a channel: clocks carried by the buffered values,
+// the receive history (capacity edges) and the close event.
+type chanMeta struct {
+	bufVC   []vclock
+	recvVCs []vclock
+	nSent   int
+	closeVC vclock
+}
+
+func (in *Interp) chanMeta(ch *ChanV) *chanMeta {
+	if in.race.chans == nil {
+		in.race.chans = map[*ChanV]*chanMeta{}
+	}
+	m := in.race.chans[ch]
+	if m == nil {
+		m = &chanMeta{}
+		in.race.chans[ch] = m
+	}
+	return m
+}
+
+// raceBufPush / raceBufPop keep the clocks of buffered values aligned with ch.buf.
+func (in *Interp) raceBufPush(ch *ChanV, v vclock) {
+	if !in.race.on {
+		return
+	}
+	m := in.chanMeta(ch)
+	for len(m.bufVC) < len(ch.buf) {
+		m.bufVC = append(m.bufVC, nil)
+	}
+	m.bufVC = append(m.bufVC, v)
+}
+
+func (in *Interp) raceBufPop(ch *ChanV) vclock {
+	if !in.race.on {
+		return nil
+	}
+	m := in.chanMeta(ch)
+	if len(m.bufVC) == 0 {
+		return nil
+	}
+	v := m.bufVC[0]
+	m.bufVC = m.bufVC[1:]
+	return v
+}
+
 type raceState struct {
 	on       bool
+	chans    map[*ChanV]*chanMeta
 	sync     map[any]vclock
 	cells    map[cellKey]*shadow
 	maps     map[*MapV]*shadow
@@ -105,15 +152,17 @@ func (in *Interp) raceActive(g *Goroutine) bool {
 	return in.race.on && g != nil && g.id >= 0 && in.specDepth == 0
 }
 
-func (g *Goroutine) tick() { g.vc.set(g.id, g.vc.get(g.id)+1) }
+func (g *Goroutine) tick() { g.vc.set(g.vi, g.vc.get(g.vi)+1) }
 
 // raceFork: the go statement happens before the start of the new goroutine.
 func (in *Interp) raceFork(parent, child *Goroutine) {
+	// vector-clock index: position in in.gs (goroutine ids are global sequence numbers)
+	child.vi = len(in.gs)
 	if parent != nil && parent.id >= 0 {
 		child.vc = parent.vc.clone()
 		parent.tick()
 	}
-	child.vc.set(child.id, 1)
+	child.vc.set(child.vi, 1)
 }
 
 func (in *Interp) raceAcquire(g *Goroutine, key any) {
@@ -198,13 +247,13 @@ func (in *Interp) raceReport(what string, prev accRec, prevWrite bool, cur accRe
 }
 
 func (in *Interp) raceCheck(sh *shadow, g *Goroutine, write bool, what func() string, pos token.Pos, fn *ssa.Function) {
-	cur := accRec{g: g.id, c: g.vc.get(g.id), pos: pos, fn: fn}
-	if sh.hasW && sh.w.g != g.id && sh.w.c > g.vc.get(sh.w.g) {
+	cur := accRec{g: g.vi, c: g.vc.get(g.vi), pos: pos, fn: fn}
+	if sh.hasW && sh.w.g != g.vi && sh.w.c > g.vc.get(sh.w.g) {
 		in.raceReport(what(), sh.w, true, cur, write)
 	}
 	if write {
 		for _, r := range sh.rd {
-			if r.g != g.id && r.c > g.vc.get(r.g) {
+			if r.g != g.vi && r.c > g.vc.get(r.g) {
 				in.raceReport(what(), r, false, cur, true)
 			}
 		}
@@ -213,7 +262,7 @@ func (in *Interp) raceCheck(sh *shadow, g *Goroutine, write bool, what func() st
 		return
 	}
 	for i := range sh.rd {
-		if sh.rd[i].g == g.id {
+		if sh.rd[i].g == g.vi {
 			sh.rd[i] = cur
 			return
 		}
@@ -269,11 +318,12 @@ func (in *Interp) raceSend(g *Goroutine, ch *ChanV) vclock {
 	if !in.raceActive(g) {
 		return nil
 	}
-	idx := ch.nSent
-	ch.nSent++
-	if ch.cap > 0 && idx >= ch.cap && idx-ch.cap < len(ch.recvVCs) {
+	m := in.chanMeta(ch)
+	idx := m.nSent
+	m.nSent++
+	if ch.cap > 0 && idx >= ch.cap && idx-ch.cap < len(m.recvVCs) {
 		// the (idx-cap)-th receive happens before this send completes
-		g.vc.join(ch.recvVCs[idx-ch.cap])
+		g.vc.join(m.recvVCs[idx-ch.cap])
 	}
 	if ch.cap == 0 {
 		// rendezvous: the receive happens before the send completes; receivers already waiting on
@@ -301,12 +351,13 @@ func (in *Interp) raceRecvDone(g *Goroutine, ch *ChanV, msg vclock, closedEmpty 
 	if !in.raceActive(g) {
 		return
 	}
+	m := in.chanMeta(ch)
 	if closedEmpty {
-		g.vc.join(ch.closeVC)
+		g.vc.join(m.closeVC)
 		return
 	}
 	g.vc.join(msg)
-	ch.recvVCs = append(ch.recvVCs, g.vc.clone())
+	m.recvVCs = append(m.recvVCs, g.vc.clone())
 	g.tick()
 }
 
